@@ -15,6 +15,7 @@ type instOpts struct {
 	mapRanges bool
 	mapSites  []rangeSite
 	selects   bool
+	swap      bool // swap sync / atomic / rand imports (files listed under "instrument")
 	extra     map[string]string
 }
 
@@ -42,11 +43,11 @@ func instrument(name string, src []byte, o instOpts) ([]byte, map[string]int, er
 	for _, im := range f.Imports {
 		path, _ := strconv.Unquote(im.Path.Value)
 		var alias, repl string
-		if s, ok := baseSwaps[path]; ok {
+		if s, ok := baseSwaps[path]; ok && o.swap {
 			alias, repl = s[0], s[1]
 		} else if path == "net" && o.net {
 			alias, repl = "net", "verif/simkit/simnet/netshim"
-		} else if r, ok := o.extra[path]; ok {
+		} else if r, ok := o.extra[path]; ok && o.swap {
 			alias, repl = lastElem(path), r
 		} else {
 			continue
